@@ -4,6 +4,7 @@ package engine
 
 import (
 	"fmt"
+	"net/url"
 	"strings"
 
 	"github.com/juev/hledger-lsp/internal/verifsim/simrt"
@@ -19,6 +20,8 @@ type JDoc struct {
 	OpenOrder int
 	LSPVer    int
 	Marker    int    // marker version of the current buffer
+	MaxMark   int    // highest marker version ever generated for this document
+	History   []int  // marker versions of the buffer since the document was opened, oldest first
 	Text      string // current buffer (open) — what a client holds
 	DiskMark  int    // marker version on disk, -1 = not on disk
 	Includes  []string
@@ -81,9 +84,19 @@ type JWorld struct {
 	VaryFormats bool // commodity directives draw their display format per version
 	Agg       bool // every version carries the aggregation block
 	DeepTree  bool // a.journal may include b.journal
+	BName     string // file name of document 3 ("b.journal" or a name that needs percent-encoding in URIs)
 }
 
 var jPaths = []string{"/sim/ws/main.journal", "/sim/ws/a.journal", "/sim/ws/b.journal", "/sim/ws/new.journal"}
+
+// fileURI is the file: URI of an absolute path, percent-encoded like editors do.
+func fileURI(p string) string {
+	segs := strings.Split(p, "/")
+	for i, sg := range segs {
+		segs[i] = url.PathEscape(sg)
+	}
+	return "file://" + strings.Join(segs, "/")
+}
 
 // GenJText draws the text of version v of doc.
 func (w *JWorld) GenJText(c *simrt.Chooser, doc *JDoc, v int, includes []string) (string, []GLine) {
@@ -188,13 +201,23 @@ func NewJWorld(c *simrt.Chooser, workspace bool, flags ...string) *JWorld {
 	if workspace {
 		w.Root = "/sim/ws"
 	}
+	// a quarter of the worlds name b.journal with a blank and a non-ASCII letter:
+	// its URI is then percent-encoded while include lines, the disk and the
+	// server's path keys are not
+	w.BName = "b.journal"
+	if c.Pct("unusual-file-name", 25) {
+		w.BName = "b ü.journal"
+	}
 	for i, p := range jPaths {
-		d := &JDoc{No: i + 1, URI: "file://" + p, Path: p, DiskMark: -1, Versions: map[int]string{}}
+		if i == 2 {
+			p = "/sim/ws/" + w.BName
+		}
+		d := &JDoc{No: i + 1, URI: fileURI(p), Path: p, DiskMark: -1, Versions: map[int]string{}}
 		w.Docs = append(w.Docs, d)
 	}
 	w.Docs[0].Includes = []string{"a.journal"}
 	if c.Pct("main-includes-b", 30) {
-		w.Docs[0].Includes = append(w.Docs[0].Includes, "b.journal")
+		w.Docs[0].Includes = append(w.Docs[0].Includes, w.BName)
 	}
 	for _, d := range w.Docs[:3] {
 		text, lines := w.GenJText(c, d, 0, d.Includes)
@@ -229,20 +252,34 @@ func (w *JWorld) OpenDocs() []*JDoc {
 
 // NextVersion draws the next version of doc (possibly changing its include list).
 func (w *JWorld) NextVersion(c *simrt.Chooser, doc *JDoc) string {
-	doc.Marker++
-	if doc.No == 1 && c.Pct("change-includes", 25) {
-		switch c.Choose("inc-change", 3) {
-		case 0:
-			doc.Includes = []string{"a.journal"}
-		case 1:
-			doc.Includes = []string{"a.journal", "b.journal"}
-		case 2:
-			doc.Includes = nil
+	doc.MaxMark++
+	doc.Marker = doc.MaxMark
+	doc.History = append(doc.History, doc.Marker)
+	if doc.No == 1 && c.Pct("change-includes", 45) {
+		// membership flaps: one of a.journal / b.journal leaves or (re-)enters the
+		// tree, entering in front of or behind the other include line
+		which := []string{"a.journal", w.BName}[c.Choose("flap-which", 2)]
+		var keep []string
+		had := false
+		for _, inc := range doc.Includes {
+			if inc == which {
+				had = true
+			} else {
+				keep = append(keep, inc)
+			}
 		}
+		if !had {
+			if c.Bool("flap-in-front") {
+				keep = append([]string{which}, keep...)
+			} else {
+				keep = append(keep, which)
+			}
+		}
+		doc.Includes = keep
 	}
 	if w.DeepTree && doc.No == 2 && c.Pct("change-includes-a", 30) {
 		if c.Bool("a-includes-b") {
-			doc.Includes = []string{"b.journal"}
+			doc.Includes = []string{w.BName}
 		} else {
 			doc.Includes = nil
 		}
@@ -264,6 +301,15 @@ func (w *JWorld) Open(c *simrt.Chooser, doc *JDoc) J {
 		// a client is free to number the versions of a re-opened document from 1 again
 		doc.LSPVer = 1
 	}
+	if doc.DiskMark >= 0 && c.Pct("open-with-disk-text", 40) {
+		// what editors do: the buffer starts as the file on disk
+		doc.Marker = doc.DiskMark
+		doc.History = []int{doc.Marker}
+		doc.Text, doc.Lines = doc.Versions[doc.DiskMark], doc.DiskLines
+		doc.Includes = append([]string(nil), doc.DiskIncludes...)
+		return J{"textDocument": J{"uri": doc.URI, "languageId": "hledger", "version": doc.LSPVer, "text": doc.Text}}
+	}
+	doc.History = nil
 	text := w.NextVersion(c, doc)
 	return J{"textDocument": J{"uri": doc.URI, "languageId": "hledger", "version": doc.LSPVer, "text": text}}
 }
@@ -350,6 +396,9 @@ func (w *JWorld) OccAt(c *simrt.Chooser, doc *JDoc) (lineNo, ch int, occ *Occ) {
 	if len(all) > 0 && c.Pct("on-occurrence", 80) {
 		x := all[c.Choose("occ", len(all))]
 		return x.l, x.o.Start + c.Choose("occ-col", x.o.End-x.o.Start+1), &x.o
+	}
+	if len(doc.Lines) == 0 {
+		return 0, 0, nil
 	}
 	l := c.Choose("line", len(doc.Lines))
 	return l, c.Choose("col", len(doc.Lines[l].Text)+1), nil
